@@ -7,16 +7,89 @@ HOOK_COMMITS = subprocess.run(
 ).stdout.strip().splitlines()
 hook_commits = [l.split()[0] for l in HOOK_COMMITS if " verif hook" in l]
 
+SIM = "deterministic simulation with fault injection"
 CLAIMED = {
     # id: (category, text, design_ref, level_note, technique)
     "C01": ("exploration",
-            "Seeded search over schedules, transport chunkings, window/frame/buffer configurations and application programs with a real client and a real server in one process; per-stream submitted-vs-delivered history oracle with attributable byte patterns (exactly once, in order, same stream, clean end iff complete). Sampling, not proof.",
-            "DESIGN.md §4 C01", "Trusts the harness programs' own bookkeeping of what they submitted; header comparison is modulo http::HeaderMap grouping (cross-name order not observable through the API).",
-            "deterministic simulation: seeded schedule/fault search with API-history oracle"),
+            "Seeded search over schedules, transport chunkings, window/frame/buffer configurations and application programs with a real client and a real server (T1) and against a scripted peer (T2); per-stream submitted-vs-delivered history oracle with attributable byte patterns (exactly once, in order, same stream, clean end iff complete; prefix only when reset or cut). Sampling, not proof.",
+            "DESIGN.md 4 C01", "Trusts the harness programs' bookkeeping of what they submitted; header comparison is modulo http::HeaderMap grouping (cross-name order is not observable through the API).",
+            SIM + ": seeded schedule/fault search, API-history oracle"),
+    "C02": ("exploration",
+            "Wire accountant of the peer-granted credit per emitting endpoint, driven by the endpoint's own ordered frame-in/frame-out event log (exact processed/encoded instants): every DATA frame must fit the stream and connection windows it had been granted when it was encoded, including acknowledged SETTINGS deltas that make windows negative; cross-check of the endpoint's internal window against the wire at quiescent samples.",
+            "DESIGN.md 4 C02, 2.9a", "The event-log hooks (two one-line producers in the codec) report encode/decode order faithfully; independent frame parser.",
+            SIM + ": wire monitor with exact event order"),
+    "C03": ("exploration",
+            "Advertised-window accountant (no over-credit: stream credit never exceeds flow-controlled bytes processed, connection credit never exceeds the largest configured target; no zero increments), idle-state conservation check (window to give equals the configured target once everything is released or discarded) and a scripted-peer exhaustion probe (padded DATA, dropped/reset/refused streams, then the peer uses up its whole window: books equal wire, nothing leaked, nothing withheld above the update threshold).",
+            "DESIGN.md 4 C03", "Credit for data on a stream whose receive handle was dropped is required at connection level only (h2 intentionally stops replenishing such a stream). Internal counters are read through the guarded stats hook.",
+            SIM + ": wire accountant + exhaustion probe with scripted peer"),
+    "C04": ("exploration",
+            "Sender-side RFC 9113 5.1/6 automaton over every frame an endpoint emits, evaluated against exactly the input it had processed when it encoded the frame: id parity and monotonicity, HEADERS first, nothing on idle streams, nothing but permitted types after END_STREAM/RST_STREAM, contiguous header blocks, stream-0 discipline, PUSH_PROMISE only on a sendable parent, 1xx only before the final head; abort-heavy programs, shutdowns, pushes, large header lists.",
+            "DESIGN.md 4 C04", "Independent frame parser and reference HPACK decoder (validated against the third-party fixture stories).",
+            SIM + ": wire life-cycle automaton"),
+    "C05": ("exploration",
+            "Outbound: at every stream-opening HEADERS the count of self-initiated streams not yet closed (most favourable reading) must stay within the peer's acknowledged MAX_CONCURRENT_STREAMS; progress with small limits and many racing request handles shows every closing path frees its slot. Inbound: refusals beyond the advertised limit are REFUSED_STREAM and never reach the application; idle-state check shows the concurrency counters return to zero.",
+            "DESIGN.md 4 C05", "Limit 0 that is never raised is not generated in cooperative runs (legitimate block).",
+            SIM + ": wire concurrency counter + progress oracle"),
     "C06": ("exploration",
-            "Cooperative runs under a strict wake-only executor: at quiescence every task must have finished; a parked task is reported with the operation it waits on and both endpoints' flow-control state. Bounded liveness (step budget) over seeded schedules, I/O timings and window/limit configurations including mid-connection changes.",
-            "DESIGN.md §4 C06", "Programs are free of circular waits by construction; the executor never polls a task whose waker did not fire.",
-            "deterministic simulation: strict wake-only executor, quiescence oracle"),
+            "Cooperative runs under a strict wake-only executor: at quiescence every task must have finished; a parked task is reported with the operation it waits on, both endpoints' flow-control state and the transport state. Bounded liveness (step budget) over seeded schedules, I/O timings and window/limit configurations including mid-connection changes.",
+            "DESIGN.md 4 C06", "Programs are free of circular waits by construction (abandon tokens, eventual release, zero limits eventually raised); the executor never polls a task whose waker did not fire; quiescence with both transport writers blocked is outside the precondition.",
+            SIM + ": strict wake-only executor, quiescence oracle"),
+    "C07": ("fault_enumeration",
+            "For each sampled scenario a reference run is recorded, then the same tape is re-run once per cut point: every byte offset (dense prefix, then strided) of both directions and every executor step, for each ending kind (clean EOF, read error, write error, write-zero, abrupt cut, dropping the Connection, flush error, shutdown error); plus seeded fatal-fault and shutdown runs. Afterwards every handle operation must have resolved and a stream whose complete message had been processed before the ending must still deliver it.",
+            "DESIGN.md 4 C07", "Per scenario the cut-point set is covered completely in the thorough tier up to the dense prefix (4096 offsets) and strided beyond; scenarios themselves are sampled.",
+            SIM + ": cut-point sweep (fault enumeration) over seeded scenarios"),
+    "C08": ("exploration",
+            "Hostile scripted peer (raw byte corruption, illegal frame orders, malformed and invalid-HPACK blocks, floods) against both roles with applications running: every poll runs under catch_unwind (no panic), a livelock oracle bounds polls without transport/API progress (no self-wake loop), and after whatever happened the connection either still serves or has ended with every handle resolved.",
+            "DESIGN.md 4 C08", "Work-per-byte is bounded through the step budget and the no-progress oracle rather than wall-clock; inputs are sampled.",
+            SIM + ": hostile scripted peer, panic/livelock/outcome oracles"),
+    "C09": ("exploration",
+            "Scripted peer: a legal history prefix, one catalogue violation (30 classes over RFC 9113 4-6) tagged with the minimum required reaction, then a follow-up stream; connection violations must yield GOAWAY(code != 0) and a failed connection future, stream violations at least RST_STREAM with other streams still working; legal-but-unusual runs (PRIORITY anywhere, unknown frames/settings, padding, late frames on finished streams, PING bursts) and all h2<->h2 cooperative runs must see no error GOAWAY, no unexplained RST_STREAM and no connection error.",
+            "DESIGN.md 4 C09, Appendix A", "Frames on a stream the endpoint reset and may have forgotten by configuration are 'unspecified' (RFC 9113 5.1 lets an endpoint bound the period; h2's own suite pins GOAWAY for HEADERS on a forgotten stream).",
+            SIM + ": scripted peer with reference classification"),
+    "C10": ("exploration",
+            "Every HEADERS / PUSH_PROMISE / trailers / 1xx block any endpoint emits in any T1/T2 run is reassembled from its CONTINUATION chain and decoded by the independent RFC 7541 reference decoder that has seen the whole connection and knows the table-size limit the peer allowed (acknowledged SETTINGS): it must decode, never exceed the limit, start with a size update after a reduction, and equal the submitted field list; table sizes 0..65536 and changes, large header lists, small frame sizes.",
+            "DESIGN.md 4 C10", "'For all header lists' is an input quantifier: contents are sampled by the generator, not searched by the scheduler.",
+            SIM + ": wire tap + reference HPACK decoder"),
+    "C11": ("exploration",
+            "Scripted peer encodes header blocks with every representation choice (indexed, literal with/without/never indexing, Huffman or raw, non-minimal integers), splits them into HEADERS+CONTINUATION at arbitrary offsets over a fragmenting transport, and mutates blocks into the RFC 7541 decoding errors; the endpoint must deliver exactly the reference decoder's field list or fail the connection when the reference says error.",
+            "DESIGN.md 4 C11", "The exhaustive sub-clause (all Huffman strings / prefix integers up to a bound) is enumeration and is not claimed; inputs are sampled.",
+            SIM + ": scripted peer, reference decoder as oracle"),
+    "C12": ("exploration",
+            "All bytes any endpoint writes in T1/T2 pass an independent incremental RFC 9113 parser under arbitrary write chunking, Pending and vectored/non-vectored modes (parse failure, wrong fixed lengths, payload above the peer's acknowledged MAX_FRAME_SIZE are violations); the scripted peer sends all frame types with padding/priority/unknown flags in every read chunking and an oversize frame head alone, which must be answered with GOAWAY without waiting for the payload.",
+            "DESIGN.md 4 C12", "The component-level codec pipe (T3) of the design is not built; the codec is exercised inside full connections only.",
+            SIM + ": wire tap parser under I/O chunking faults"),
+    "C13": ("exploration",
+            "Scripted peer sends requests/responses/trailers/1xx whose header sections are drawn from the RFC 9113 section 8 malformations (and valid unusual ones), split across CONTINUATION at any offset, with DATA that matches, undershoots or overshoots content-length; a reference validity predicate decides each: invalid messages must never reach accept()/ResponseFuture/trailers and the stream or connection must fail; valid ones must arrive unmodified.",
+            "DESIGN.md 4 C13", "The predicate is a function of the input; simulation contributes fragmentation, stream state and DATA timing. The send-API half is covered only as far as C04's automaton (1xx/PUSH ordering).",
+            SIM + ": scripted peer with reference validity predicate"),
+    "C14": ("exploration",
+            "ACK accountant on the wire: the k-th SETTINGS processed is answered by the k-th SETTINGS ACK, each PING by one PING ACK with the same payload in order, never an ACK that answers nothing, none owed at quiescence; scripted bursts of SETTINGS/PING while the endpoint's writer is stalled; after its ACK every emitted frame obeys the new values (frame size, window deltas, table size, push); unsolicited SETTINGS ACK must be a connection error.",
+            "DESIGN.md 4 C14", "Settings are taken to apply at the instant the endpoint encodes the ACK (which is what h2 does).",
+            SIM + ": wire ACK accountant under write back-pressure"),
+    "C15": ("exploration",
+            "Graceful and abrupt server shutdown and client drop at drawn steps of multi-stream exchanges: GOAWAY last-stream-ids emitted never increase, no stream above a processed GOAWAY's last-stream-id is opened, a connection that sent an error GOAWAY fails its own future, streams complete or fail on every handle (C07 oracles), completed messages survive the shutdown.",
+            "DESIGN.md 4 C15", "Debug-data propagation and the PING-delimited graceful sequence are observed through the same wire monitor but not asserted frame by frame.",
+            SIM + ": GOAWAY monitor + outcome oracles"),
+    "C16": ("exploration",
+            "poll_capacity never yields Some(Ok(0)); at sampled steps the capacity assigned to streams plus the unassigned remainder never exceeds the connection window and no stream is assigned more than its window (internal books), which agree with the wire accountant; at the idle point a fresh probe stream reserving 2^31-1 must be assigned exactly min(connection window, stream window) so that capacity stranded on finished, reset or dropped streams shows as a shortfall; capacity waiters finish in cooperative runs.",
+            "DESIGN.md 4 C16", "The freeze experiment of the design is replaced by the books-vs-wire invariants (same truth, checked at every sample instead of at drawn freezes).",
+            SIM + ": capacity invariants + probe stream at quiescence"),
+    "C17": ("exploration",
+            "RST_STREAM counter per stream on the wire (never two, except RST_STREAM(STREAM_CLOSED) answering a late peer frame), never before the stream's HEADERS, no DATA after it; resets and last-handle drops at every operation index with arbitrary 32-bit codes; error facts (reason, is_remote/is_library/is_io, is_reset/is_go_away) recorded from every failing handle.",
+            "DESIGN.md 4 C17", "Exactly-one is enforced as 'never two and never on idle'; 'none when already closed' relies on C04's automaton.",
+            SIM + ": wire RST counter + API error facts"),
+    "C18": ("exploration",
+            "Hostile scripted floods (rapid reset, CONTINUATION, tiny/empty DATA, oversized headers, over-concurrency, PING/SETTINGS against a stalled writer, WINDOW_UPDATE/PRIORITY, PUSH_PROMISE and 1xx towards a client) with finite limits and slow or absent application accepts; after every step the guarded statistics snapshot (records, pending accepts, remembered resets, buffered events/bytes, queued frames, partial header bytes, codec buffers) must stay within bounds derived from the configuration plus what the application holds.",
+            "DESIGN.md 4 C18", "Bounds are generous linear formulas (they separate bounded from unbounded growth, not tight accounting).",
+            SIM + ": hostile floods + stats-bound oracle"),
+    "C19": ("exploration",
+            "Phase-gated runs: when every stream is finished and every stream handle dropped but both connections and one request handle are alive, the statistics snapshot must show no stream record except remembered local resets, empty buffers, zero concurrency counters, nothing in flight, windows equal to the wire accountant and the expected handle count; then the last handle is dropped and the client must send GOAWAY(NO_ERROR), shut down and complete Ok (all tasks finish).",
+            "DESIGN.md 4 C19", "Internal state is read through the guarded stats hook (read-only).",
+            SIM + ": idle-state oracle at quiescence"),
+    "C20": ("exploration",
+            "At every lock / atomic yield point inside either connection task's poll (pass-through Mutex/Atomic shims) a whole poll of a woken application task may be run, which is what another thread could do between two of the connection's critical sections; all wire and history oracles stay on (any broken guarantee is a C20 violation) plus lock-order, re-entrancy and poisoning detection in the shims.",
+            "DESIGN.md 4 C20, 2.5", "Interleavings inside multi-critical-section handle operations (baton-scheduled threads) are not built; real parallel executions are not part of any verdict. h2 is data-race free by construction (two mutexes, one atomic state machine).",
+            SIM + ": handle operations injected at lock/atomic yield points"),
 }
 
 NA_REASON_PENDING = "check not built yet in this revision of /verif (simulation applies; see DESIGN.md §4) - not claimed until its oracle is in place"
